@@ -75,6 +75,9 @@ def r1(ctx):
         if need not in put_callers:
             raise mir.AnchorMissing("%s no longer calls put" % need)
     allowed_ep = {"ranger::Store::put", "<&mut S as ranger::Store<E>>::entry_put"}
+    # an implementation's own `put` (an override of the default) is as legitimate a caller as the default: whether it admits what the
+    # default admits is decided by C02.R15 on the default's table (self-test twin TO1 repeats the default and must stay silent)
+    allowed_ep |= {p for p in ep_callers if re.match(r"^<.* as ranger::Store<.*>>::put$", p)}
     for p, sites in sorted(ep_callers.items()):
         ctx.check(p in allowed_ep, "C03.R1", p, "entry_put-caller",
                   "entry_put (raw store write) is called only from put and the forwarding impl", sites[0][1]["sp"])
